@@ -30,6 +30,7 @@ const (
 	silence        = "silence"
 	success        = "success"             // Result-Code 2001, shares an advertised application
 	successPlus    = "success-plus"        // same, plus an application the client does not know
+	successRelay   = "success-relay"       // 2001, the peer is a relay: it advertises the relay application id (0xffffffff) only
 	failCode       = "fail-code"           // a failing Result-Code
 	noResultCode   = "no-result-code"      // malformed: Result-Code missing
 	noOriginHost   = "no-origin-host"      // malformed: Origin-Host missing
@@ -81,10 +82,20 @@ func (c Case) expect() (k int, ok bool) {
 			a = c.Script[i]
 		}
 		if terminal(a) {
-			return i + 1, a == success || a == successPlus
+			return i + 1, a == success || a == successPlus || a == successRelay
 		}
 	}
 	return c.MaxRetransmits + 1, false
+}
+
+func (c Case) firstApp() uint32 {
+	switch {
+	case len(c.Auth) > 0:
+		return c.Auth[0]
+	case len(c.Acct) > 0:
+		return c.Acct[0]
+	}
+	return 16777251
 }
 
 func (c Case) sharedApp() *refcodec.Node {
@@ -110,6 +121,8 @@ func (c Case) cea(kind string, hbh, e2e uint32) []byte {
 	switch kind {
 	case success, dupSuccess:
 		nodes = append([]*refcodec.Node{rc, oh, or}, append(rest, c.sharedApp())...)
+	case successRelay:
+		nodes = append([]*refcodec.Node{rc, oh, or}, append(rest, &refcodec.Node{Code: 258, Flags: 0x40, Payload: refcodec.U32(0xffffffff)})...)
 	case successPlus:
 		nodes = append([]*refcodec.Node{rc, oh, or}, append(rest, &refcodec.Node{Code: 258, Flags: 0x40, Payload: refcodec.U32(999)}, c.sharedApp())...)
 	case failCode, lateFailure:
@@ -136,8 +149,11 @@ func (c Case) cea(kind string, hbh, e2e uint32) []byte {
 }
 
 // an answer of an application command (Re-Auth-Answer, base dictionary)
-func appAnswerMsg(seq int) []byte {
-	return refcodec.EncodeMessage(refcodec.Header{Version: 1, Flags: 0, Code: 258, App: 0, HopByHop: uint32(7000 + seq), EndToEnd: 1},
+func appAnswerMsg(seq int) []byte { return appAnswerFor(seq, 0) }
+
+// appAnswerFor: a Re-Auth-Answer in the given application (the command is the base one in every application).
+func appAnswerFor(seq int, app uint32) []byte {
+	return refcodec.EncodeMessage(refcodec.Header{Version: 1, Flags: 0, Code: 258, App: app, HopByHop: uint32(7000 + seq), EndToEnd: 1},
 		[]*refcodec.Node{{Code: 263, Flags: 0x40, Payload: []byte("s")}, {Code: 268, Flags: 0x40, Payload: refcodec.U32(2001)}}, false)
 }
 
@@ -276,6 +292,12 @@ func runOnce(c Case) result {
 	for _, x := range c.Extras {
 		switch x {
 		case appAnswer:
+			if sent%2 == 1 {
+				// every other one in the application the client advertised
+				sent++
+				mc.Feed(appAnswerFor(sent, c.firstApp()))
+				continue
+			}
 			sent++
 			mc.Feed(appAnswerMsg(sent))
 		default:
@@ -283,7 +305,7 @@ func runOnce(c Case) result {
 		}
 	}
 	sent++
-	mc.Feed(appAnswerMsg(sent)) // a final answer after all extras
+	mc.Feed(appAnswerFor(sent, c.firstApp())) // a final answer after all extras, in the application the client advertised
 	deadline := time.After(3 * time.Second)
 	for n := 0; n < sent; n++ {
 		select {
@@ -486,7 +508,7 @@ func genCase(t *rapid.T) Case {
 	for i := 0; i < n; i++ {
 		c.Script = append(c.Script, rapid.SampledFrom([]string{silence, silence, notCEA}).Draw(t, "no-reply"))
 	}
-	c.Script = append(c.Script, rapid.SampledFrom([]string{success, success, success, successPlus, failCode, noResultCode, noOriginHost, successNoApp, successUnknApp, successVSAUnknown, successVSAVendor, disconnect, silence}).Draw(t, "reaction"))
+	c.Script = append(c.Script, rapid.SampledFrom([]string{success, success, success, successPlus, successRelay, failCode, noResultCode, noOriginHost, successNoApp, successUnknApp, successVSAUnknown, successVSAVendor, disconnect, silence}).Draw(t, "reaction"))
 	k := rapid.IntRange(0, 5).Draw(t, "extras")
 	for i := 0; i < k; i++ {
 		c.Extras = append(c.Extras, rapid.SampledFrom([]string{dupSuccess, lateFailure, malformed, appAnswer}).Draw(t, "extra"))
@@ -538,7 +560,7 @@ func classify(c Case) (bool, []string) {
 
 var prop = ev.Register(&ev.Prop[Case]{
 	ID: "C12", Name: "handshake",
-	Rule: "client settings (MaxRetransmits 0..4, RetransmitInterval 40..70 ms, identity, configured or endpoint-derived host addresses incl. IPv6, zoned link-local and multi-homed (SCTP style a/b:port) endpoints, advertised auth / acct / vendor-specific applications that the local dictionary supports) x peer script per received transmission {silence, messages that are not a CEA (a success DWA with the CER's identifiers, an application answer), success CEA sharing an advertised application, failing Result-Code, CEA without Result-Code / Origin-Host, success without / with only unknown applications, disconnect}, reacting inside the transport's Write; after a successful handshake 0..5 extras {duplicate success CEA, late failing CEA, malformed CEA, application answers}; non-trivial = a retransmission, a failure outcome, or an extra CEA after success; a mismatch that a scheduling delay could explain must reproduce 3 times",
+	Rule: "client settings (MaxRetransmits 0..4, RetransmitInterval 40..70 ms, identity, configured or endpoint-derived host addresses incl. IPv6, zoned link-local and multi-homed (SCTP style a/b:port) endpoints, advertised auth / acct / vendor-specific applications that the local dictionary supports) x peer script per received transmission {silence, messages that are not a CEA (a success DWA with the CER's identifiers, an application answer), success CEA sharing an advertised application (or, from a relay, the relay application id only), failing Result-Code, CEA without Result-Code / Origin-Host, success without / with only unknown applications, disconnect}, reacting inside the transport's Write; after a successful handshake 0..5 extras {duplicate success CEA, late failing CEA, malformed CEA, application answers}; non-trivial = a retransmission, a failure outcome, or an extra CEA after success; a mismatch that a scheduling delay could explain must reproduce 3 times",
 	Gen:  genCase, Run: runCase, Classify: classify, Attempts: 2,
 })
 
@@ -552,7 +574,7 @@ func TestC12Handshake(t *testing.T) {
 func TestC12Canonical(t *testing.T) {
 	prop.Enumerate(t, false, func(yield func(Case) bool) {
 		base := Case{MaxRetransmits: 1, IntervalMs: 40, Host: "client.example", Realm: "example", LocalAddr: "10.1.2.3:3868", Auth: []uint32{4}}
-		for _, a := range []string{success, successPlus, failCode, noResultCode, noOriginHost, successNoApp, successUnknApp, successVSAUnknown, successVSAVendor, disconnect, silence} {
+		for _, a := range []string{success, successPlus, successRelay, failCode, noResultCode, noOriginHost, successNoApp, successUnknApp, successVSAUnknown, successVSAVendor, disconnect, silence} {
 			c := base
 			c.Script = []string{a}
 			if !yield(c) {
